@@ -596,6 +596,47 @@ def _assign_from(fn, n):
     return None, None
 
 
+def _implies_back_empty(fb, fn, c, sense, bb, reader, depth=2):
+    """True / False when condition c having evaluated to `sense` says the back-buffer member bb is empty (invalid) / non-empty; None when
+    c says nothing about it.  c may be the validity test itself or a call of a helper of the class with a bool result (helper =
+    inlined, path-sensitive in its result: every return that can yield `sense` must itself lie behind such a test)."""
+    x = fn.sn(c)
+    if x is None:
+        return None
+    if x.get('k') == 'call' and x.get('q') == BUFFER + '::(conv)' and fn.is_this_member(x.get('recv'), bb):
+        return not sense
+    if x.get('k') == 'unop' and x.get('op') == '!':
+        return _implies_back_empty(fb, fn, x['sub'], not sense, bb, reader, depth)
+    if x.get('k') == 'call' and x.get('rcls') == reader and x.get('u') and depth > 0:
+        gs = [g for g in fb.by_usr.get(x['u'], []) if g.has_cfg and g.retC == 'bool']
+        if not gs:
+            return None
+        verdicts = []
+        for g in gs:
+            rets = [n for n in g.all_nodes() if n.get('k') == 'return' and 'sub' in n]
+            relevant = 0
+            for r in rets:
+                val = g.const_value(r['sub'])
+                if val is not None:
+                    if bool(val) != bool(sense):
+                        continue        # this return cannot produce the outcome observed by the caller
+                    relevant += 1
+                    vs = [_implies_back_empty(fb, g, c2, s2, bb, reader, depth - 1) for (c2, s2, _b) in guards_of(g, r['id'])]
+                    vs = [v for v in vs if v is not None]
+                    verdicts.append(True if any(v is True for v in vs) else (False if vs else None))
+                else:
+                    relevant += 1
+                    verdicts.append(_implies_back_empty(fb, g, r['sub'], sense, bb, reader, depth - 1))
+            if relevant == 0:
+                return None
+        if verdicts and all(v is True for v in verdicts):
+            return True
+        if verdicts and all(v is False for v in verdicts):
+            return False
+        return None
+    return None
+
+
 def rule_reader_read(fb, R, reader=READER):
     rec = fb.record(reader)
     if rec is None:
@@ -620,9 +661,9 @@ def rule_reader_read(fb, R, reader=READER):
         gs = guards_of(fn, P['id'])
         r1 = None
         for (c, sense, _b) in gs:
-            x = fn.sn(c)
-            if x is not None and x.get('k') == 'call' and x.get('q') == BUFFER + '::(conv)' and fn.is_this_member(x.get('recv'), bb):
-                r1 = (not sense)
+            v = _implies_back_empty(fb, fn, c, sense, bb, reader)
+            if v is not None:
+                r1 = bool(r1) or v
         if r1 is None and any(fn.is_this_member(x, bb) for (c, _s, _b) in gs for x in fn.subtree(c)):
             R.broken('%s: the pop is guarded by an unknown test of %s' % (fn.q, bb))
         else:
